@@ -9,15 +9,27 @@ use tower_lsp::lsp_types::Url;
 /// Save the contents of a dictionary to a file.
 /// Ensures that the path to the destination exists.
 pub async fn save_dict(path: impl AsRef<Path>, dict: impl Dictionary) -> Result<()> {
-    if let Some(parent) = path.as_ref().parent() {
+    let path = path.as_ref();
+
+    if let Some(parent) = path.parent() {
         fs::create_dir_all(parent).await?;
     }
 
-    let file = File::create(path.as_ref()).await?;
+    // Write to a temporary sibling and rename it over the destination: a crash while saving
+    // leaves either the old or the new dictionary on disk, never a truncated one.
+    let mut tmp_name = path.file_name().unwrap_or_default().to_os_string();
+    tmp_name.push(".tmp");
+    let tmp_path = path.with_file_name(tmp_name);
+
+    let file = File::create(&tmp_path).await?;
     let mut write = BufWriter::new(file);
 
     write_word_list(dict, &mut write).await?;
     write.flush().await?;
+    write.get_ref().sync_all().await?;
+    drop(write);
+
+    fs::rename(&tmp_path, path).await?;
 
     Ok(())
 }
